@@ -35,7 +35,14 @@ def plan(tier):
 
 def generate(rng, tier, index):
     cfg = DW.gen_config(rng)
-    return {'cfg': cfg, 'ops': DW.gen_ops(rng, real=cfg['provider'] != 'synth'), 'cap': 400}
+    rec = {'cfg': cfg, 'ops': DW.gen_ops(rng, real=cfg['provider'] != 'synth'), 'cap': 400}
+    if cfg['provider'] == 'synth' and rng.random() < 0.25:
+        # history of the process, not of the model: another model with the same element names and open boundaries was
+        # built first; the model under test (boundaries as requested in cfg) must not inherit anything from it
+        pre = copy.deepcopy(cfg)
+        pre['bcs'] = {el: {'L': ['comp', round(rng.uniform(0.3, 0.6) / (len(cfg['all_elements']) - 1), 4)], 'R': ['flux', 10 ** rng.uniform(-12, -9)]} for el in cfg['all_elements'][1:]}
+        rec['pre'] = pre
+    return rec
 
 
 def prepare(tier, recs):
@@ -196,16 +203,27 @@ def run_and_check(rec, F, cnt, prefix='C04', check_temp=True):
 
 def execute(rec):
     F = core.Failures(cap=16)
-    cnt = {k: 0 for k in ('steps', 'ledger_checks', 'clip_steps', 'temp_checks', 'provider_calls', 'sim_time', 'runs_real', 'runs_synth')}
+    cnt = {k: 0 for k in ('steps', 'ledger_checks', 'clip_steps', 'temp_checks', 'provider_calls', 'sim_time', 'runs_real', 'runs_synth', 'predecessor_models')}
     cfg = rec['cfg']
     cnt['runs_synth' if cfg['provider'] == 'synth' else 'runs_real'] = 1
+    if rec.get('pre'):
+        try:
+            pm, _ = DW.build(rec['pre'])
+            pm.setup()
+        except Exception:  # noqa  (the predecessor only has to exist)
+            pass
+        cnt['predecessor_models'] = 1
     m, info, sig, D, capped = run_and_check(rec, F, cnt)
+    if rec.get('pre'):
+        sig.add('pre')
     fl = [f for f in F.items if f['check'].startswith('C04.')]
     s = f"{cfg['model']}:{cfg['provider']}:{len(cfg['all_elements'])}:" + ','.join(sorted(sig))
     return core.result(fl, sig=s, nontrivial=cnt['ledger_checks'] >= 10, counters=cnt, digest=D.hex())
 
 
 def shrink_candidates(rec):
+    if rec.get('pre'):
+        r = copy.deepcopy(rec); del r['pre']; yield r
     if len(rec['ops']) > 1:
         for c in core.ddmin_candidates(rec['ops']):
             if c:
